@@ -134,7 +134,9 @@ def api_mutation(job):
                         yield c
                     elif c.classname == 'Group':
                         yield from segs(c)
-            seg = [c for c in segs(m) if c.name != 'MSH'][0]
+            cands = [c for c in segs(m) if c.name != 'MSH']
+            # a segment whose last field is 'varies' accepts extra <SEG>_<n> fields: the unknown field must still be reported there
+            seg = ([c for c in cands if c.allow_infinite_children] or cands)[len(t) % len([c for c in cands if c.allow_infinite_children] or cands)]
             seg.add(Field(version=m.version, validation_level=vlib.level(False)))
             want = ('unknown:%s' % seg.name, 'invalid-children:%s:' % seg.name)
         else:
@@ -143,6 +145,20 @@ def api_mutation(job):
         return ('ok ' + '|'.join(impl.canon_err(e) for e in r.errors), want)
     except Exception as e:  # noqa
         return ('exc ' + vlib.exc_name(e), None)
+
+
+def seg_unknown(job):
+    """(version, segment): a fresh segment holding one unnamed Field must be reported as holding an unknown / invalid child"""
+    from hl7apy.core import Segment, Field
+    v, S = job
+    try:
+        s = Segment(S, version=v, validation_level=vlib.level(False))
+        open_ended = bool(s.allow_infinite_children)
+        s.add(Field(version=v, validation_level=vlib.level(False)))
+        r = s.validate(return_errors=True)
+        return ('ok ' + '|'.join(impl.canon_err(e) for e in r.errors), open_ended)
+    except Exception as e:  # noqa
+        return ('exc ' + vlib.exc_name(e), False)
 
 
 def run(tier, seed):
@@ -258,6 +274,31 @@ def run(tier, seed):
             chk.fail(None, {'clause': 'validate-returns-a-report', 'got': o, **rep}, rep)
         elif want and not any(e.startswith(tuple(want)) for e in o[3:].split('|')):
             chk.fail(None, {'clause': 'error-names-the-element', 'expected_error': want, 'errors': o[3:].split('|')[:8], **rep}, rep)
+    # an unnamed field in a fresh segment, every open-ended segment of every version + a sample of the others
+    import hl7apy
+    sjobs = []
+    for v in VERSIONS:
+        lib = hl7apy.load_library(v)
+        names = sorted(n for n in lib.SEGMENTS if n not in ex.get(v, []) and n != 'MSH')
+        openended = [n for n in names if gen.is_seq(lib.SEGMENTS[n]) and len(lib.SEGMENTS[n]) > 1 and gen.is_seq(lib.SEGMENTS[n][1]) and lib.SEGMENTS[n][1]
+                     and gen.well_formed_ref(lib.SEGMENTS[n][1][-1][1]) and len(lib.SEGMENTS[n][1][-1][1]) == 6 and lib.SEGMENTS[n][1][-1][1][2] == 'varies']
+        pick = openended + chk.rng.sample(names, 6 if tier == 'quick' else 40)
+        sjobs += [(v, n) for n in sorted(set(pick))]
+    nopen = 0
+    for (v, S), (o, oe) in zip(sjobs, vlib.pmap(seg_unknown, sjobs)):
+        chk.evals += 1
+        nopen += 1 if oe else 0
+        rep = {'api': "s = Segment(name, version); s.add(Field()); s.validate(return_errors=True)", 'version': v, 'segment': S, 'mutation': 'unknown-field-fresh-segment'}
+        if not o.startswith('ok '):
+            if 'ChildNotValid' in o or 'ChildNotFound' in o:
+                continue
+            chk.fail(['T:%s:%s' % (v, S)], {'clause': 'validate-returns-a-report', 'got': o, **rep}, rep)
+        elif not any(e.startswith(('unknown:%s' % S, 'invalid-children:%s:' % S)) for e in o[3:].split('|')):
+            chk.fail(None, {'clause': 'error-names-the-element', 'expected_error': ['unknown:%s' % S, 'invalid-children:%s:' % S], 'open_ended_segment': oe,
+                            'errors': o[3:].split('|')[:8], **rep}, rep)
+        else:
+            chk.nontrivial.add((v, S, 'unknown-field'))
+    chk.dist['fresh_segment_unknown_field'] = {'cases': len(sjobs), 'open_ended': nopen}
     chk.dist['result_kinds'] = kinds
     chk.dist['cases'] = len(cases)
     chk.dist['api_mutations'] = len(muts)
@@ -276,6 +317,9 @@ def replay(path):
     d = json.load(open(path))
     r = d['replay']
     print(json.dumps(d['what'], indent=1))
+    if r.get('mutation') == 'unknown-field-fresh-segment':
+        print(seg_unknown((r['version'], r['segment'])))
+        return 0
     if 'mutation' in r:
         print(api_mutation((r['text'], r['mutation'])))
     else:
